@@ -1122,6 +1122,10 @@ def update_detector_states(
         return new_state
 
     for d in to_update:
+        # A detector that is never on (e.g. an always-off switch) has a zero-row state that no
+        # update can index into; it records nothing, so leave its state untouched.
+        if d._num_time_steps_on == 0:
+            continue
         # E already lives at the detector's integer time step; H lives at half steps, so exact
         # detectors time-center H as (H_prev + H) / 2 on their region inside the branch.
         state[d.name] = jax.lax.cond(
